@@ -468,6 +468,12 @@ func funcRecv(fd *ast.FuncDecl) string {
 // ---- marshal: which pb fields does each struct field flow into -------------------------
 
 func marshalFlow(g *Gen, fr fnRef, out map[string]map[string]bool, guards guardCollector) error {
+	return marshalFlowAt(g, fr, out, guards, nil, 0)
+}
+
+// marshalFlowAt: `prefix` = the conditions around the call when the function is walked as a helper
+// of another one (package-internal method calls on the receiver are followed one level).
+func marshalFlowAt(g *Gen, fr fnRef, out map[string]map[string]bool, guards guardCollector, prefix []guardRec, depth int) error {
 	fd, err := g.Func(fr.file, fr.fn)
 	if err != nil {
 		return err
@@ -491,8 +497,38 @@ func marshalFlow(g *Gen, fr fnRef, out map[string]map[string]bool, guards guardC
 		return nil
 	}
 	taint := map[string]map[string]bool{}
-	var gstack []guardRec // enclosing conditions of the statement being walked
+	gstack := append([]guardRec(nil), prefix...) // enclosing conditions of the statement being walked
 	mentions := func(e ast.Node) []string { return setList(recvFieldsIn(g, e, recv, taint)) }
+	// helper methods of the same struct called on the receiver: walked in place, one level deep
+	follow := func(n ast.Node) {
+		if depth > 0 || fr.recv != "" || n == nil {
+			return
+		}
+		typ := fr.fn
+		if i := strings.IndexByte(typ, '.'); i >= 0 {
+			typ = typ[:i]
+		} else {
+			return
+		}
+		ast.Inspect(n, func(x ast.Node) bool {
+			call, ok := x.(*ast.CallExpr)
+			if !ok {
+				return true
+			}
+			se, ok := call.Fun.(*ast.SelectorExpr)
+			if !ok || g.Src(se.X) != recv {
+				return true
+			}
+			callee := typ + "." + se.Sel.Name
+			if callee == fr.fn {
+				return true
+			}
+			if _, err := g.Func(fr.file, callee); err == nil {
+				_ = marshalFlowAt(g, fnRef{file: fr.file, fn: callee}, out, guards, gstack, depth+1)
+			}
+			return true
+		})
+	}
 	var walk func(stmts []ast.Stmt, ctx map[string]bool)
 	record := func(fields map[string]bool, ctx map[string]bool, key string) {
 		if key == "" {
@@ -596,9 +632,42 @@ func marshalFlow(g *Gen, fr fnRef, out map[string]map[string]bool, guards guardC
 				}
 			case *ast.ExprStmt:
 				visitExpr(x.X, ctx, "")
+				follow(x.X)
 			case *ast.ReturnStmt:
 				for _, r := range x.Results {
 					visitExpr(r, ctx, "")
+				}
+			case *ast.SwitchStmt:
+				// every arm is a branch of its own: the tag and the case expressions are its guard
+				for _, cl := range x.Body.List {
+					cc, ok := cl.(*ast.CaseClause)
+					if !ok {
+						continue
+					}
+					c2 := copySet(ctx)
+					text := "switch"
+					var ms []string
+					if x.Tag != nil {
+						text += " " + g.Src(x.Tag)
+						ms = append(ms, mentions(x.Tag)...)
+						for f := range recvFieldsIn(g, x.Tag, recv, taint) {
+							c2[f] = true
+						}
+					}
+					if cc.List == nil {
+						text += " default"
+					}
+					for _, e := range cc.List {
+						text += " case " + g.Src(e)
+						ms = append(ms, mentions(e)...)
+						for f := range recvFieldsIn(g, e, recv, taint) {
+							c2[f] = true
+						}
+					}
+					depthG := len(gstack)
+					gstack = append(gstack, guardRec{text: text, mentions: ms, zero: false})
+					walk(cc.Body, c2)
+					gstack = gstack[:depthG]
 				}
 			case *ast.IfStmt:
 				c2 := copySet(ctx)
@@ -950,6 +1019,10 @@ func pbNames(g *Gen, n ast.Node, pbVars map[string]map[string]bool) map[string]b
 }
 
 func unmarshalFlow(g *Gen, fr fnRef, tyName string, fields [][2]string, out map[string]map[string]bool, guards guardCollector) error {
+	return unmarshalFlowAt(g, fr, tyName, fields, out, guards, nil, 0)
+}
+
+func unmarshalFlowAt(g *Gen, fr fnRef, tyName string, fields [][2]string, out map[string]map[string]bool, guards guardCollector, prefix []guardRec, depth int) error {
 	fd, err := g.Func(fr.file, fr.fn)
 	if err != nil {
 		return err
@@ -968,8 +1041,24 @@ func unmarshalFlow(g *Gen, fr fnRef, tyName string, fields [][2]string, out map[
 		}
 	}
 	var walk func(stmts []ast.Stmt, ctx map[string]bool)
-	var gstack []guardRec
+	gstack := append([]guardRec(nil), prefix...)
 	mentions := func(e ast.Node) []string { return setList(pbNames(g, e, pbVars)) }
+	follow := func(call *ast.CallExpr) {
+		if depth > 0 || fr.recv != "" || fr.lit != "" {
+			return
+		}
+		se, ok := call.Fun.(*ast.SelectorExpr)
+		if !ok || g.Src(se.X) != recv {
+			return
+		}
+		callee := tyName + "." + se.Sel.Name
+		if callee == fr.fn {
+			return
+		}
+		if _, err := g.Func(fr.file, callee); err == nil {
+			_ = unmarshalFlowAt(g, fnRef{file: fr.file, fn: callee}, tyName, fields, out, guards, gstack, depth+1)
+		}
+	}
 	rec := func(f string, names map[string]bool, ctx map[string]bool) {
 		guards.note(f, gstack)
 		if len(names) > 0 {
@@ -1043,6 +1132,7 @@ func unmarshalFlow(g *Gen, fr fnRef, tyName string, fields [][2]string, out map[
 				lits(x.X, ctx)
 				// recv.F.unmarshal(x) / recv.F[i].unmarshal(x) / helper(recv, pb)
 				if call, ok := x.X.(*ast.CallExpr); ok && fr.lit == "" {
+					follow(call)
 					if se, ok := call.Fun.(*ast.SelectorExpr); ok {
 						if f := fieldOf(g, se.X, recv); f != "" {
 							names := map[string]bool{}
@@ -1086,6 +1176,37 @@ func unmarshalFlow(g *Gen, fr fnRef, tyName string, fields [][2]string, out map[
 				} else if endsInReturn(x.Body) {
 					gstack = append(gstack, condGuards(g, x.Cond, true, mentions)...)
 					blockDepth = depth
+				}
+			case *ast.SwitchStmt:
+				for _, cl := range x.Body.List {
+					cc, ok := cl.(*ast.CaseClause)
+					if !ok {
+						continue
+					}
+					c2 := copySet(ctx)
+					text := "switch"
+					var ms []string
+					if x.Tag != nil {
+						text += " " + g.Src(x.Tag)
+						ms = append(ms, mentions(x.Tag)...)
+						for k := range pbNames(g, x.Tag, pbVars) {
+							c2[k] = true
+						}
+					}
+					if cc.List == nil {
+						text += " default"
+					}
+					for _, e := range cc.List {
+						text += " case " + g.Src(e)
+						ms = append(ms, mentions(e)...)
+						for k := range pbNames(g, e, pbVars) {
+							c2[k] = true
+						}
+					}
+					depthG := len(gstack)
+					gstack = append(gstack, guardRec{text: text, mentions: ms, zero: false})
+					walk(cc.Body, c2)
+					gstack = gstack[:depthG]
 				}
 			case *ast.RangeStmt:
 				src := pbNames(g, x.X, pbVars)
@@ -1229,6 +1350,22 @@ func cloneFlow(g *Gen, fr fnRef, fields [][2]string, out map[string]string, guar
 				gstack = gstack[:depth]
 				if top && hasRet {
 					after = true
+				}
+			case *ast.SwitchStmt:
+				for _, cl := range x.Body.List {
+					if cc, ok := cl.(*ast.CaseClause); ok {
+						text := "switch"
+						if x.Tag != nil {
+							text += " " + g.Src(x.Tag)
+						}
+						for _, e := range cc.List {
+							text += " case " + g.Src(e)
+						}
+						depth := len(gstack)
+						gstack = append(gstack, guardRec{text: text, mentions: mentions(x), zero: false})
+						walk(cc.Body, false)
+						gstack = gstack[:depth]
+					}
 				}
 			case *ast.RangeStmt:
 				depth := len(gstack)
